@@ -21,7 +21,7 @@ ASSUMPTIONS = [
     "Candle objects handed to append become owned by the library; only dicts and lists are required to stay unchanged",
     "ISO strings are used as timestamps only in the dict form (the list form documents datetime only)",
 ]
-PARTIAL = "read accessors are pure functions in the model by construction, so for them the tie (accessor-interleaved components) and the deep-snapshot oracle carry the claim; proved: every input encoding of fresh candles (Candle / dict / list with timestamp first, last or absent; bare or listed) decodes to the same candles (encodings_agree), Hexital.append hands the same candles to every timeframe's manager and changes no manager configuration; that the caller's own containers are not mutated is a property of Python object identity the model cannot express (oracle only)"
+PARTIAL = "read accessors are pure functions in the model by construction, so for them the tie (accessor-interleaved components) and the deep-snapshot oracle carry the claim; proved: every input encoding of fresh candles (Candle / dict / list with timestamp first, last or absent; bare or listed) decodes to the same candles (encodings_agree), Hexital.append hands the same candles to every timeframe's manager and changes no manager configuration; since round 6 also: the ISO-string encoding decodes to the same candles (encodings_agree_iso), bad inputs are rejected as the library rejects them, purge(name) removes exactly the entries under that name (purge_name_exact), tagging changes one tag or raises (tag_at_ok / tag_at_error), Candle.__eq__ and CandleManager.__eq__ are characterised (candle_eq_iff, manager_eq_iff); that the caller's own containers are not mutated is a property of Python object identity the model cannot express (oracle only)"
 
 
 def oracle(ctx):
